@@ -163,6 +163,7 @@ Opt(addl, fbd, coerce, ali) == [addl |-> addl, fbd |-> fbd, coerce |-> coerce, a
 Ctx(O) == [C |-> UClasses, En |-> UEnums, O |-> O, S |-> UStrAttr]
 
 \* ---- types
+AnyCons == TAnnot(TAny, << <<"min", 1>>, <<"max_len", 1>>, <<"max_items", 1>> >>)
 Leaves ==
   { TNone, TBool, TInt, TFloat, TStr, TAny,
     TLit(<<DInt(1), DInt(2)>>), TLit(<<DStr("a"), DStr("b")>>), TLit(<<DInt(1), DStr("a")>>),
@@ -179,7 +180,9 @@ Leaves ==
     \* constraints on several levels, a zero-valued one innermost
     TAnnot(TAnnot(TInt, << <<"min", 0>> >>), << <<"max", 6>> >>),
     TAnnot(TNew("NZ", TAnnot(TFloat, << <<"exc_min", 0>> >>)), << <<"mult_of", 3>> >>),
-    TAnnot(TAnnot(TStr, << <<"min_len", 0>>, <<"max_len", 2>> >>), << <<"pattern", "pa">> >>) }
+    TAnnot(TAnnot(TStr, << <<"min_len", 0>>, <<"max_len", 2>> >>), << <<"pattern", "pa">> >>),
+    \* constraints on an Any position: each applies to the data of its own JSON type (numbers: integers AND floats)
+    AnyCons }
 
 Ctor1(t) ==
   { TColl("list", t), TColl("vtuple", t), TMap(TStr, t), TOpt(t),
@@ -187,7 +190,7 @@ Ctor1(t) ==
     TAnnot(TColl("list", t), << <<"min_items", 1>>, <<"max_items", 2>> >>),
     TUnion(<<t, TStr>>), TUnion(<<TInt, t>>), TUnion(<<TColl("list", TInt), t>>) }
 
-HashableLeaves == Leaves \ {TAny}
+HashableLeaves == Leaves \ {TAny, AnyCons}
 SetTypes  == { TColl(c, t) : c \in {"set", "fset"}, t \in HashableLeaves \cup {TTuple(<<TInt, TStr>>)} }
           \cup { TAnnot(TColl("list", TInt), << <<"unique", TRUE>> >>) }
           \* a size constraint on a set: it reads the DATA (an array with duplicates), not the deduplicated value
